@@ -333,6 +333,9 @@ func main() {
 	// a grouped field followed by two fields that collide with each other (rejected inside the call, after a group member)
 	sp(&ctor{name: "OutGDup_K0K1K1", resultObj: true, outs: []out{{typ: "K0", group: "g"}, {typ: "K1"}, {typ: "K1"}}})
 	sp(&ctor{name: "OutGDup_K2K3", resultObj: true, outs: []out{{typ: "K2", group: "g"}, {typ: "K2", group: "h"}, {typ: "K3", key: "k"}, {typ: "K3", key: "k"}}})
+	// names and groups that contain a space (legal: any non-empty string), in In and Out struct tags
+	sp(&ctor{name: "InSp_K0", inStyle: true, deps: []dep{{target: "K1", form: "FKeyed", key: "a b"}, {target: "K2", form: "FGroup", group: "g h"}}, outs: simpleOut("K0"), hasErr: true})
+	sp(&ctor{name: "OutSp_K1K2", resultObj: true, outs: []out{{typ: "K1", key: "a b"}, {typ: "K2", group: "g h"}}})
 	writeTypes()
 	writeCtors()
 }
